@@ -9,6 +9,12 @@ HOOK_COMMITS = []
 NOT_APPLICABLE = {("C%02d" % i): "check not built yet in this round; see DESIGN.md section 6 for the plan" for i in range(1, 21)}
 
 PROPS = {
+    "C13": {"level": "exploration",
+            "level_text": "Enumeration of the finite numeric domains (all int32 coordinates, all uint32 timestamps: exhaustive in thorough, seeded stride in quick), exhaustive short strings over the grammar alphabet, every exponent, all date/time field combinations on a boundary grid, integer strings around every type boundary; each compared with an arbitrary-precision reference written in the harness.",
+            "level_note": "Trusted: the harness's decimal-string/__int128 reference and its proleptic-Gregorian calendar code. Long coordinate strings are sampled from a grammar. Leniencies not asserted: explicit '+' for integers, characters after the final Z of a timestamp, INT64_MIN/INT64_MAX as ids (strtoll sentinels).",
+            "technique": "exhaustive/strided enumeration + reference-model oracle (arbitrary-precision decimal arithmetic), round-trip oracle",
+            "assumptions": ["UINT32_MAX is rejected for version/changeset/uid by design (pinned by test_types_from_string.cpp)",
+                            "timestamp strings follow timegm-style carry for Feb 29 in common years and second 60"]},
     "C14": {"level": "exploration",
             "level_text": "Exhaustive enumeration of every Unicode scalar and all structural strings up to length 4 against inverse parsers (opl_parse_string, expat); strided (quick) or exhaustive (thorough) enumeration of all 2^32 byte strings of length 1-4 against a guard page. Exhaustive over the finite domains named, sampling for long strings.",
             "level_note": "Trusted: expat as XML reference parser, the harness's own UTF-8 encoder, mprotect guard page semantics. Long strings are sampled (seeded).",
@@ -18,6 +24,8 @@ PROPS = {
 }
 
 UNITS = [
+    {"name": "c13_enum", "props": ["C13"], "kind": "enum", "src": "harness/c13_enum.cpp", "flags": "-O2",
+     "quick": {"min_evaluations": 10000000}, "thorough": {"min_evaluations": 8000000000, "case_timeout": 900}},
     {"name": "c14_enum", "props": ["C14"], "kind": "enum", "src": "harness/c14_enum.cpp", "flags": "-O2", "libs": "-lexpat",
      "quick": {"min_evaluations": 1000000}, "thorough": {"min_evaluations": 4000000000, "case_timeout": 600}},
 ]
